@@ -3,7 +3,7 @@
    ENCODINGS juno feeds to Pedersen/Poseidon are unambiguous and that every committed field reaches the hash
    input. Collision resistance of the primitives themselves is out of scope (and not assumed). *)
 From Coq Require Import List ZArith Bool Lia.
-From V Require Import C01.Term C01.State C02.Model C02.Proofs_Enc C02.Proofs_Trie C02.Proofs_Tx C02.Proofs_Block C02.Proofs_Accept.
+From V Require Import C01.Term C01.State C02.Model C02.Proofs_Enc C02.Proofs_Trie C02.Proofs_Tx C02.Proofs_Block C02.Proofs_Class C02.Proofs_Accept.
 Import ListNotations.
 Open Scope Z_scope.
 
@@ -60,18 +60,104 @@ Theorem C02_preimage_injective : forall b1 b2 h, block_wf b1 -> block_wf b2 -> s
 Proof. exact preimage_injective. Qed.
 Print Assumptions C02_preimage_injective.
 
-(* a stored block: linked to the head, receipts pair with transactions, every transaction hash (block version >= 0.11.0, kinds juno recomputes) and the
-   block hash recompute, the old root is the commitment (under the block's protocol version) of the state the
-   node holds, and state + diff has exactly the declared root *)
+(* ---------- the Sierra class hash ---------- *)
+(* two class definitions with the same hash term agree on the version string, every entry point of every list
+   (selector, function index, order, list lengths), the ABI text and every program felt - or their ABI texts are an
+   explicit StarknetKeccak collision. class_ok_wf: the version string fits a felt (<= 15 bytes after the 16-byte
+   prefix "CONTRACT_CLASS_V"; Proofs_Class.version_bound_needed shows two 32-byte strings that coincide) *)
+Theorem C02_class_hash_injective : forall kec c1 c2, class_ok_wf c1 -> class_ok_wf c2 ->
+  class_hash kec c1 = class_hash kec c2 ->
+  c1 = c2 \/ kec_collision kec (sc_abi c1) (sc_abi c2).
+Proof. exact class_hash_injective. Qed.
+Print Assumptions C02_class_hash_injective.
+
+(* ---------- acceptance under ANY evaluation ev of the hash terms (juno: Pedersen / Poseidon on felts; the
+   oracle of the correspondence run decides with accept_ev and the harness-evaluated primitives) ---------- *)
+(* a stored block: header and state update agree, every delivered Sierra definition hashes to its key, the block
+   is linked to the head, receipts pair with transactions, every transaction hash (block version >= 0.11.0, kinds
+   juno recomputes) and the block hash recompute, the old root is the commitment (under the block's protocol
+   version) of the state the node holds, and state + diff has exactly the declared root *)
+Theorem C02_accept_ev_sound : forall ev kec ch cs b cs', accept_ev ev kec ch cs b = Some cs' ->
+  ev (b_hash b) = ev (b_su_hash b) /\ ev (h_state_root (b_hdr b)) = ev (b_su_new_root b) /\
+  Forall (class_verifies ev kec) (b_classes b) /\
+  linked_ev ev cs b /\
+  Forall2 (fun t r => ev (t_hash t) = ev (r_txhash r)) (b_txs b) (b_rcpts b) /\
+  (tx_verified b = true -> Forall (tx_recomputes_ev ev ch) (b_txs b)) /\
+  (exists h, block_hash b = Some h /\ ev h = ev (b_hash b)) /\
+  ev (commitment (pre_0_14 b) (cs_state cs)) = ev (b_old_root b) /\
+  ev (commitment (pre_0_14 b) (new_state cs b)) = ev (h_state_root (b_hdr b)) /\
+  cs' = next_state cs b.
+Proof. exact accept_ev_sound. Qed.
+Print Assumptions C02_accept_ev_sound.
+
+Theorem C02_reject_pure_ev : forall ev kec ch bs1 b bs2,
+  accept_ev ev kec ch (run_ev ev kec ch bs1) b = None ->
+  run_ev ev kec ch (bs1 ++ b :: bs2) = run_ev ev kec ch (bs1 ++ bs2).
+Proof. exact reject_pure_run_ev. Qed.
+Print Assumptions C02_reject_pure_ev.
+
+(* a block that carries the declared hash VALUE of a valid block b but differs from b in a committed field is
+   rejected - or the two block-hash inputs are an explicit pair of different terms with the same value *)
+Theorem C02_tamper_rejected_ev : forall ev kec ch cs b b' h, block_wf b -> block_wf b' -> same_sig_rule b' b ->
+  block_hash b = Some h -> ev h = ev (b_hash b) -> ev (b_hash b') = ev (b_hash b) -> committed b' <> committed b ->
+  accept_ev ev kec ch cs b' = None \/
+  (exists h', block_hash b' = Some h' /\ h' <> h /\ ev h' = ev h).
+Proof. exact tamper_rejected_ev. Qed.
+Print Assumptions C02_tamper_rejected_ev.
+
+Theorem C02_tx_tamper_rejected_ev : forall ev kec ch cs b' t' body, In t' (b_txs b') -> tx_verified b' = true ->
+  tx_ok body -> tx_ok (t_body t') -> ev (tx_hash ch body) = ev (t_hash t') -> t_body t' <> body ->
+  accept_ev ev kec ch cs b' = None \/
+  (tx_hash ch (t_body t') <> tx_hash ch body /\ ev (tx_hash ch (t_body t')) = ev (tx_hash ch body)).
+Proof. exact tx_tamper_rejected_ev. Qed.
+Print Assumptions C02_tx_tamper_rejected_ev.
+
+(* a block delivering, under the key k of class c (the class hash its state diff commits to), a Sierra
+   definition c' that differs from c in ANY field is rejected - or an explicit collision is exhibited: two
+   different class-hash inputs with the same value, or two different ABI texts with the same StarknetKeccak *)
+Theorem C02_class_tamper_rejected_ev : forall ev kec ch cs b' k c c', In (k, Sierra c') (b_classes b') ->
+  ev (class_hash kec c) = ev (TC k) -> class_ok_wf c -> class_ok_wf c' -> c' <> c ->
+  accept_ev ev kec ch cs b' = None \/
+  (class_hash kec c' <> class_hash kec c /\ ev (class_hash kec c') = ev (class_hash kec c)) \/
+  kec_collision kec (sc_abi c') (sc_abi c).
+Proof. exact class_tamper_rejected_ev. Qed.
+Print Assumptions C02_class_tamper_rejected_ev.
+
+Theorem C02_wrong_root_or_linkage_rejected_ev : forall ev kec ch cs b,
+  ev (commitment (pre_0_14 b) (new_state cs b)) <> ev (h_state_root (b_hdr b)) \/
+  ev (commitment (pre_0_14 b) (cs_state cs)) <> ev (b_old_root b) \/ ~ linked_ev ev cs b \/
+  ev (b_hash b) <> ev (b_su_hash b) \/ ev (h_state_root (b_hdr b)) <> ev (b_su_new_root b) ->
+  accept_ev ev kec ch cs b = None.
+Proof. exact wrong_root_rejected_ev. Qed.
+Print Assumptions C02_wrong_root_or_linkage_rejected_ev.
+
+(* what the state layer and the CASM-hash bookkeeping refuse (no hashing involved): a contract deployed twice; a
+   replaced class, a nonce or a storage diff for a contract that is not deployed; below 0.14.1 a declared class
+   without a delivered Sierra definition; from 0.14.1 a migration of a class that was never declared, was declared
+   with the V2 hash, or is migrated already *)
+Theorem C02_accepted_applicable : forall ev kec ch cs b cs', accept_ev ev kec ch cs b = Some cs' ->
+  diff_applicable (cs_state cs) (b_diff b) = true /\ casm_ok cs b = true.
+Proof. exact accepted_applicable. Qed.
+Print Assumptions C02_accepted_applicable.
+
+(* a >= 0.13.4 block whose header lacks a price object has no hash (repaired defect sanity-panic:nil-gas-price) *)
+Theorem C02_missing_prices_rejected_ev : forall ev kec ch cs b,
+  ver_ge (h_ver (b_hdr b)) (0, 13, 4) = true -> h_prices_present (b_hdr b) = false ->
+  accept_ev ev kec ch cs b = None.
+Proof. exact missing_prices_rejected_ev. Qed.
+Print Assumptions C02_missing_prices_rejected_ev.
+
+(* ---------- the free-algebra instance: accept = accept_ev (identity), comparisons are syntactic and the
+   collision disjuncts vanish ---------- *)
 Theorem C02_accept_sound : forall ch cs b cs', accept ch cs b = Some cs' ->
+  b_hash b = b_su_hash b /\ h_state_root (b_hdr b) = b_su_new_root b /\
   linked cs b /\
   Forall2 (fun t r => t_hash t = r_txhash r) (b_txs b) (b_rcpts b) /\
   (tx_verified b = true -> Forall (tx_recomputes ch) (b_txs b)) /\
   block_hash b = Some (b_hash b) /\
   commitment (pre_0_14 b) (cs_state cs) = b_old_root b /\
   commitment (pre_0_14 b) (new_state cs b) = h_state_root (b_hdr b) /\
-  cs' = {| cs_head := Some (h_number (b_hdr b), b_hash b);
-           cs_state := new_state cs b; cs_blocks := b :: cs_blocks cs |}.
+  cs' = next_state cs b.
 Proof. exact accept_sound. Qed.
 Print Assumptions C02_accept_sound.
 
@@ -110,7 +196,7 @@ Definition ex_v3 : v3c := {| v_tip := 5; v_l1 := {| rb_amount := 1; rb_price := 
   v_l1d := Some {| rb_amount := 5; rb_price := 6 |}; v_paymaster := []; v_nonce_da := 0; v_fee_da := 1 |}.
 Definition ex_hdr (ver : Z * Z * Z) : header := {| h_number := 0; h_state_root := TC 0; h_sequencer := 1000; h_timestamp := 17;
   h_tx_count := 2; h_event_count := 1; h_blob := true; h_l1_gas_wei := 1; h_l1_gas_fri := 2; h_l1_data_wei := 3;
-  h_l1_data_fri := 4; h_l2_wei := 5; h_l2_fri := 6; h_version_str := 52974952066612; h_ver := ver; h_parent := TC 0 |}.
+  h_l1_data_fri := 4; h_l2_wei := 5; h_l2_fri := 6; h_prices_present := true; h_version_str := 52974952066612; h_ver := ver; h_parent := TC 0 |}.
 Definition ex_raw (ver : Z * Z * Z) (d : sdiff) : block := {|
   b_hdr := ex_hdr ver;
   b_txs := [ {| t_body := InvokeV3 false 77 1 ex_v3 [] [1; 2] []; t_sig := [9; 8]; t_hash := TC 0 |};
@@ -118,11 +204,12 @@ Definition ex_raw (ver : Z * Z * Z) (d : sdiff) : block := {|
   b_rcpts := [ {| r_txhash := TC 0; r_fee := 3; r_msgs := [ {| m_from := 1; m_to := 2; m_payload := [3] |} ]; r_revert := None;
                   r_l1gas := 1; r_l1datagas := 2; r_events := [ {| e_from := 4; e_keys := [1]; e_data := [] |} ] |};
                {| r_txhash := TC 0; r_fee := 4; r_msgs := []; r_revert := Some 99; r_l1gas := 0; r_l1datagas := 0; r_events := [] |} ];
-  b_diff := d; b_hash := TC 0; b_old_root := TC 0 |}.
+  b_diff := d; b_hash := TC 0; b_old_root := TC 0; b_su_hash := TC 0; b_su_new_root := TC 0; b_classes := [] |}.
 Definition ex_d0 : sdiff := {| sd_deployed := [(100, 500)]; sd_replaced := []; sd_nonces := [(100, 1)];
   sd_storage := [(100, [(1, 11)])]; sd_declared_v0 := [500]; sd_declared_v1 := []; sd_migrated := [] |}.
 Definition ex_d1 : sdiff := {| sd_deployed := []; sd_replaced := []; sd_nonces := []; sd_storage := [(100, [(2, 22)])];
-  sd_declared_v0 := []; sd_declared_v1 := [(600, 601)]; sd_migrated := [] |}.
+  sd_declared_v0 := []; sd_declared_v1 := []; sd_migrated := [] |}.
+(* (a diff declaring a Sierra class needs its definition delivered: see ex_c0 below, under a felt-valued evaluation) *)
 Definition ex_b0 := seal ex_chain empty_chain (ex_raw (0, 13, 4) ex_d0).
 Definition ex_cs1 := push ex_chain empty_chain ex_b0.
 Definition ex_b1 := seal ex_chain ex_cs1 (ex_raw (0, 13, 2) ex_d1).
@@ -142,9 +229,10 @@ Proof. vm_compute. split; reflexivity. Qed.
 Definition ex_tampered : block :=
   {| b_hdr := {| h_number := 1; h_state_root := h_state_root (b_hdr ex_b1); h_sequencer := 1000; h_timestamp := 18;
                  h_tx_count := 2; h_event_count := 1; h_blob := true; h_l1_gas_wei := 1; h_l1_gas_fri := 2; h_l1_data_wei := 3;
-                 h_l1_data_fri := 4; h_l2_wei := 5; h_l2_fri := 6; h_version_str := 52974952066612; h_ver := (0, 13, 2);
+                 h_l1_data_fri := 4; h_l2_wei := 5; h_l2_fri := 6; h_prices_present := true; h_version_str := 52974952066612; h_ver := (0, 13, 2);
                  h_parent := h_parent (b_hdr ex_b1) |};
-     b_txs := b_txs ex_b1; b_rcpts := b_rcpts ex_b1; b_diff := b_diff ex_b1; b_hash := b_hash ex_b1; b_old_root := b_old_root ex_b1 |}.
+     b_txs := b_txs ex_b1; b_rcpts := b_rcpts ex_b1; b_diff := b_diff ex_b1; b_hash := b_hash ex_b1; b_old_root := b_old_root ex_b1;
+     b_su_hash := b_su_hash ex_b1; b_su_new_root := b_su_new_root ex_b1; b_classes := [] |}.
 Example tamper_nontrivial :
   accept ex_chain ex_cs1 ex_tampered = None /\ accept ex_chain (push ex_chain ex_cs1 ex_b1) ex_b1 = None /\
   run ex_chain [ex_b0; ex_tampered; ex_b1] = run ex_chain [ex_b0; ex_b1].
@@ -172,11 +260,13 @@ Definition ex_stale : block :=
   let hdr := {| h_number := 1; h_state_root := h_state_root h; h_sequencer := h_sequencer h; h_timestamp := h_timestamp h;
                 h_tx_count := h_tx_count h; h_event_count := h_event_count h; h_blob := h_blob h;
                 h_l1_gas_wei := h_l1_gas_wei h; h_l1_gas_fri := h_l1_gas_fri h; h_l1_data_wei := h_l1_data_wei h;
-                h_l1_data_fri := h_l1_data_fri h; h_l2_wei := h_l2_wei h; h_l2_fri := h_l2_fri h;
+                h_l1_data_fri := h_l1_data_fri h; h_l2_wei := h_l2_wei h; h_l2_fri := h_l2_fri h; h_prices_present := true;
                 h_version_str := h_version_str h; h_ver := h_ver h; h_parent := b_hash ex_b0 |} in
-  let b1 := {| b_hdr := hdr; b_txs := b_txs g; b_rcpts := b_rcpts g; b_diff := b_diff g; b_hash := TC 0; b_old_root := b_old_root g |} in
+  let b1 := {| b_hdr := hdr; b_txs := b_txs g; b_rcpts := b_rcpts g; b_diff := b_diff g; b_hash := TC 0; b_old_root := b_old_root g;
+               b_su_hash := TC 0; b_su_new_root := h_state_root h; b_classes := [] |} in
   {| b_hdr := hdr; b_txs := b_txs g; b_rcpts := b_rcpts g; b_diff := b_diff g;
-     b_hash := match block_hash b1 with Some x => x | None => TC 0 end; b_old_root := b_old_root g |}.
+     b_hash := match block_hash b1 with Some x => x | None => TC 0 end; b_old_root := b_old_root g;
+     b_su_hash := match block_hash b1 with Some x => x | None => TC 0 end; b_su_new_root := h_state_root h; b_classes := [] |}.
 Example stale_old_root_rejected :
   b_old_root ex_stale = TC 0 /\ block_hash ex_stale = Some (b_hash ex_stale) /\ linked ex_cs1 ex_stale /\
   accept ex_chain ex_cs1 ex_stale = None /\ accept ex_chain ex_cs1 ex_stale = None /\
@@ -194,3 +284,134 @@ Definition ex_x1 := seal ex_chain ex_xs (ex_raw (0, 14, 0) ex_dn).
 Example version_crossing_extends :
   b_old_root ex_x1 <> h_state_root (b_hdr ex_x0) /\ cs_head (run ex_chain [ex_x0; ex_x1]) = Some (1, b_hash ex_x1).
 Proof. vm_compute. split; [discriminate | reflexivity]. Qed.
+
+(* ---------- non-vacuity of the class theorems: a concrete evaluation (a toy polynomial hash into felts) under
+   which a block DELIVERING a Sierra class is sealed, accepted, and its class tamperings rejected ---------- *)
+Definition toyM : Z := 2305843009213693951.       (* 2^61 - 1 *)
+Fixpoint toy (t : term) : Z :=
+  match t with
+  | TC z => z
+  | TPed a b => (toy a * 1000003 + toy b * 999983 + 11) mod toyM
+  | TPos2 a b => (toy a * 1000033 + toy b * 999979 + 13) mod toyM
+  | TPosN l => (fix go (l : list term) : Z := match l with [] => 17 | x :: r => (toy x + 1000037 * go r + 1) mod toyM end) l
+  | TPedN l => (fix go (l : list term) : Z := match l with [] => 19 | x :: r => (toy x + 1000039 * go r + 1) mod toyM end) l
+  | TAddLen a n => toy a + Z.of_nat n
+  | TPath p => fold_left (fun acc (b : bool) => 2 * acc + (if b then 1 else 0)) p 0
+  end.
+Definition ev_toy (t : term) : term := TC (toy t).
+Definition kec_toy (bs : list Z) : Z := be_num (1 :: bs).
+
+Definition ex_sierra : sierra := {|
+  sc_version := [48; 46; 49; 46; 48];                                   (* "0.1.0" *)
+  sc_external := [ {| ep_selector := 11; ep_index := 0 |}; {| ep_selector := 12; ep_index := 1 |} ];
+  sc_l1handler := [];
+  sc_constructor := [ {| ep_selector := 13; ep_index := 2 |} ];
+  sc_abi := [91; 93];                                                   (* "[]" *)
+  sc_program := [1; 2; 3] |}.
+Definition ex_key : Z := class_key ev_toy kec_toy ex_sierra.
+Definition ex_dc : sdiff := {| sd_deployed := [(100, 500)]; sd_replaced := []; sd_nonces := []; sd_storage := [(100, [(1, 11)])];
+  sd_declared_v0 := [500]; sd_declared_v1 := [(ex_key, 777)]; sd_migrated := [] |}.
+Definition with_classes (b : block) (cl : list (Z * cdef)) : block :=
+  {| b_hdr := b_hdr b; b_txs := b_txs b; b_rcpts := b_rcpts b; b_diff := b_diff b; b_hash := b_hash b;
+     b_old_root := b_old_root b; b_su_hash := b_su_hash b; b_su_new_root := b_su_new_root b; b_classes := cl |}.
+Definition ex_c0 : block :=
+  seal_ev ev_toy kec_toy ex_chain empty_chain (with_classes (ex_raw (0, 14, 0) ex_dc) [(0, Sierra ex_sierra); (500, Cairo0)]).
+
+(* the sealed block delivers the class under its evaluated hash, is accepted, and the class enters the class trie *)
+Example class_block_accepted :
+  b_classes ex_c0 = [(ex_key, Sierra ex_sierra); (500, Cairo0)] /\
+  (exists cs', accept_ev ev_toy kec_toy ex_chain empty_chain ex_c0 = Some cs' /\ classes (cs_state cs') = [(ex_key, 777)]).
+Proof. split; [vm_compute; reflexivity|]. eexists. split; vm_compute; reflexivity. Qed.
+
+(* every single-field tampering of the delivered definition is rejected: an entry-point selector, a function
+   index, the order of a list, a dropped / an added entry point, an entry point moved to another list, an ABI
+   byte, a program felt (changed, dropped), the version string *)
+Definition ex_tamperings : list sierra :=
+  let c := ex_sierra in
+  let mk v e l k a p := {| sc_version := v; sc_external := e; sc_l1handler := l; sc_constructor := k; sc_abi := a; sc_program := p |} in
+  [ mk (sc_version c) [ {| ep_selector := 14; ep_index := 0 |}; {| ep_selector := 12; ep_index := 1 |} ] [] (sc_constructor c) (sc_abi c) (sc_program c);
+    mk (sc_version c) [ {| ep_selector := 11; ep_index := 5 |}; {| ep_selector := 12; ep_index := 1 |} ] [] (sc_constructor c) (sc_abi c) (sc_program c);
+    mk (sc_version c) [ {| ep_selector := 12; ep_index := 1 |}; {| ep_selector := 11; ep_index := 0 |} ] [] (sc_constructor c) (sc_abi c) (sc_program c);
+    mk (sc_version c) [ {| ep_selector := 11; ep_index := 0 |} ] [] (sc_constructor c) (sc_abi c) (sc_program c);
+    mk (sc_version c) (sc_external c) [ {| ep_selector := 0; ep_index := 0 |} ] (sc_constructor c) (sc_abi c) (sc_program c);
+    mk (sc_version c) [ {| ep_selector := 11; ep_index := 0 |} ] [ {| ep_selector := 12; ep_index := 1 |} ] (sc_constructor c) (sc_abi c) (sc_program c);
+    mk (sc_version c) (sc_external c) [] [] (sc_abi c) (sc_program c);
+    mk (sc_version c) (sc_external c) [] (sc_constructor c) [91; 32; 93] (sc_program c);
+    mk (sc_version c) (sc_external c) [] (sc_constructor c) [] (sc_program c);
+    mk (sc_version c) (sc_external c) [] (sc_constructor c) (sc_abi c) [1; 2; 4];
+    mk (sc_version c) (sc_external c) [] (sc_constructor c) (sc_abi c) [1; 2];
+    mk (sc_version c) (sc_external c) [] (sc_constructor c) (sc_abi c) [];
+    mk [48; 46; 49; 46; 49] (sc_external c) [] (sc_constructor c) (sc_abi c) (sc_program c);
+    mk [48; 46; 49; 46; 48; 48] (sc_external c) [] (sc_constructor c) (sc_abi c) (sc_program c) ].
+Example class_tamperings_rejected :
+  forallb (fun c' => match accept_ev ev_toy kec_toy ex_chain empty_chain (with_classes ex_c0 [(ex_key, Sierra c'); (500, Cairo0)]) with
+                     | None => true | Some _ => false end) ex_tamperings = true /\
+  (* a tampered Cairo-0 definition is not looked at (VerifyClassHashes skips it): nothing to tamper in the model *)
+  (* the definition withheld: the declared class does not enter the class trie, the declared root is not reached *)
+  accept_ev ev_toy kec_toy ex_chain empty_chain (with_classes ex_c0 [(500, Cairo0)]) = None /\
+  (* delivered under another key *)
+  accept_ev ev_toy kec_toy ex_chain empty_chain (with_classes ex_c0 [(ex_key + 1, Sierra ex_sierra); (500, Cairo0)]) = None.
+Proof. vm_compute. repeat split; reflexivity. Qed.
+
+(* the hypotheses of C02_class_tamper_rejected_ev are met by the first tampering *)
+Example class_tamper_hypotheses :
+  let c' := hd ex_sierra ex_tamperings in
+  In (ex_key, Sierra c') (b_classes (with_classes ex_c0 [(ex_key, Sierra c'); (500, Cairo0)])) /\
+  ev_toy (class_hash kec_toy ex_sierra) = ev_toy (TC ex_key) /\ class_ok_wf ex_sierra /\ class_ok_wf c' /\ c' <> ex_sierra.
+Proof.
+  cbv zeta. split; [left; reflexivity|]. split; [vm_compute; reflexivity|].
+  split; [|split]; [| |vm_compute; discriminate];
+    (split; [unfold bytes_ok; cbn; repeat constructor; lia | cbn; lia]).
+Qed.
+
+(* in the free algebra no Sierra definition verifies (a key is a felt, a class hash a Poseidon term): the symbolic
+   [accept] rejects the same block - the class theorems are therefore stated for arbitrary ev *)
+Example class_block_symbolic : accept ex_chain empty_chain ex_c0 = None.
+Proof. vm_compute. reflexivity. Qed.
+
+(* a >= 0.13.4 block without price objects *)
+Example missing_prices_nontrivial :
+  let h := b_hdr ex_b0 in
+  let hdr := {| h_number := h_number h; h_state_root := h_state_root h; h_sequencer := h_sequencer h; h_timestamp := h_timestamp h;
+                h_tx_count := h_tx_count h; h_event_count := h_event_count h; h_blob := h_blob h;
+                h_l1_gas_wei := h_l1_gas_wei h; h_l1_gas_fri := h_l1_gas_fri h; h_l1_data_wei := 0;
+                h_l1_data_fri := 0; h_l2_wei := 0; h_l2_fri := 0; h_prices_present := false;
+                h_version_str := h_version_str h; h_ver := h_ver h; h_parent := h_parent h |} in
+  accept ex_chain empty_chain {| b_hdr := hdr; b_txs := b_txs ex_b0; b_rcpts := b_rcpts ex_b0; b_diff := b_diff ex_b0;
+    b_hash := b_hash ex_b0; b_old_root := b_old_root ex_b0; b_su_hash := b_su_hash ex_b0; b_su_new_root := b_su_new_root ex_b0;
+    b_classes := [] |} = None /\ accept ex_chain empty_chain ex_b0 <> None.
+Proof. vm_compute. split; [reflexivity | discriminate]. Qed.
+
+(* ---------- non-vacuity of the applicability rules ---------- *)
+(* address 100 exists after ex_b0: a block deploying it again is consistent in every hash and root (sealed), yet
+   refused; so is a nonce for an address nobody deployed *)
+Definition ex_dup : sdiff := {| sd_deployed := [(100, 500)]; sd_replaced := []; sd_nonces := []; sd_storage := [];
+  sd_declared_v0 := []; sd_declared_v1 := []; sd_migrated := [] |}.
+Definition ex_ghost : sdiff := {| sd_deployed := []; sd_replaced := []; sd_nonces := [(4242, 1)]; sd_storage := [];
+  sd_declared_v0 := []; sd_declared_v1 := []; sd_migrated := [] |}.
+Example applicability_nontrivial :
+  let b := seal ex_chain ex_cs1 (ex_raw (0, 13, 4) ex_dup) in
+  let g := seal ex_chain ex_cs1 (ex_raw (0, 13, 4) ex_ghost) in
+  diff_applicable (cs_state ex_cs1) ex_dup = false /\ roots_ok tid ex_cs1 b = true /\ block_hash_ok tid b = true /\
+  accept ex_chain ex_cs1 b = None /\
+  diff_applicable (cs_state ex_cs1) ex_ghost = false /\ roots_ok tid ex_cs1 g = true /\ accept ex_chain ex_cs1 g = None /\
+  diff_applicable (cs_state ex_cs1) ex_d1 = true.
+Proof. vm_compute. repeat split; reflexivity. Qed.
+
+(* CASM-hash bookkeeping: the class declared by ex_c0 (0.14.0) is migrated by a 0.14.1 block; a second migration,
+   and a migration of a class that was never declared, are refused *)
+Definition ex_cc1 : chain_state := push_ev ev_toy kec_toy ex_chain empty_chain ex_c0.
+Definition ex_dm (k : Z) : sdiff := {| sd_deployed := []; sd_replaced := []; sd_nonces := []; sd_storage := [];
+  sd_declared_v0 := []; sd_declared_v1 := []; sd_migrated := [(k, 778)] |}.
+Definition ex_m1 : block := seal_ev ev_toy kec_toy ex_chain ex_cc1 (ex_raw (0, 14, 1) (ex_dm ex_key)).
+Definition ex_cc2 : chain_state := push_ev ev_toy kec_toy ex_chain ex_cc1 ex_m1.
+Example casm_bookkeeping_nontrivial :
+  cs_casm ex_cc1 = [(ex_key, {| cm_at := 0; cm_v2 := false; cm_migrated := false |})] /\
+  cs_head ex_cc2 = Some (1, b_hash ex_m1) /\
+  cs_casm ex_cc2 = [(ex_key, {| cm_at := 0; cm_v2 := false; cm_migrated := true |})] /\
+  classes (cs_state ex_cc2) = [(ex_key, 778)] /\
+  accept_ev ev_toy kec_toy ex_chain ex_cc2 (seal_ev ev_toy kec_toy ex_chain ex_cc2 (ex_raw (0, 14, 1) (ex_dm ex_key))) = None /\
+  accept_ev ev_toy kec_toy ex_chain ex_cc1 (seal_ev ev_toy kec_toy ex_chain ex_cc1 (ex_raw (0, 14, 1) (ex_dm 31337))) = None /\
+  (* below 0.14.1 a declared class whose definition is withheld is refused by this rule too *)
+  casm_ok empty_chain (with_classes ex_c0 [(500, Cairo0)]) = false /\ casm_ok empty_chain ex_c0 = true.
+Proof. vm_compute. repeat split; reflexivity. Qed.
